@@ -42,21 +42,27 @@ func (Email) Validate(email bytes.Bytes) {
 	}
 
 	char := email.FirstByte()
-	if char == ' ' || char == '<' {
+	if isBlank(char) || char == '<' {
 		panic(errs.ErrInvalidEmail.F(email.String()))
 	}
 
 	char = email.LastByte()
-	if char == ' ' || char == '>' {
+	if isBlank(char) || char == '>' {
 		panic(errs.ErrInvalidEmail.F(email.String()))
 	}
 
 	emailStr := email.String()
 
-	_, err := mail.ParseAddress(emailStr)
-	if err != nil {
+	addr, err := mail.ParseAddress(emailStr)
+	if err != nil || addr.Name != "" {
+		// (a trailing comment, "a@b.cc (Bob)", is parsed as the display name)
 		panic(errs.ErrInvalidEmail.F(emailStr))
 	}
+}
+
+// isBlank a blank of any kind around the address is as wrong as a space.
+func isBlank(c byte) bool {
+	return c == ' ' || c == '\t' || c == '\n' || c == '\r'
 }
 
 func (Email) ASTNode() schema.RuleASTNode {
